@@ -63,6 +63,10 @@ type RTScn struct {
 	Bound     int             `json:"bound"`
 	UseListenerPort bool      `json:"use_listener_port,omitempty"`
 	CancelAtMs int            `json:"cancel_at_ms,omitempty"` // the caller's context is cancelled at this virtual instant
+	// After: an earlier request served by the same process (its own execution, default schedule) whose process-wide
+	// leftovers (caches, allocators, memoised values) are still there when this request runs
+	After *RTScn `json:"after,omitempty"`
+	keep  bool
 }
 
 type stubFetcher struct {
@@ -173,6 +177,15 @@ func RunRT2(cfg vsched.Config, sc *RTScn) *RTResult { return runRT(cfg, sc, true
 func RunRT(cfg vsched.Config, sc *RTScn) *RTResult { return runRT(cfg, sc, false) }
 
 func runRT(cfg vsched.Config, sc *RTScn, twice bool) *RTResult {
+	keepProcessState := false
+	if sc.After != nil {
+		prev := *sc.After
+		prev.After = nil
+		cache.Cache.Flush()
+		prev.keep = true // (flushed just above; runRT must not flush again after its own setup has used the cache)
+		runRT(vsched.Config{}, &prev, false)
+		keepProcessState = true
+	}
 	out := &RTResult{RDNSCalls: map[string]int{}}
 	target := sc.targetAddr()
 	// world: one Scn per run the request may start (queries, e2e probes, prefer_sack fallback)
@@ -230,7 +243,9 @@ func runRT(cfg vsched.Config, sc *RTScn, twice bool) *RTResult {
 	PrepareBases(sc.IPIDBase, sc.EchoBase)
 	vrand.Src = &randSrc{}
 	out.Net, out.Script = n, script
-	cache.Cache.Flush()
+	if !keepProcessState && !sc.keep {
+		cache.Cache.Flush()
+	}
 	// SACK target capability
 	port := sc.Port
 	if v == "sack" && target == SackAddr {
